@@ -557,7 +557,8 @@ O == INSTANCE Output WITH
        outClosed <- OutClosed, inClosed <- InClosed, wire <- wire,
        rets <- [p \in Procs |-> ORets(rets[p])],
        peer <- MapSeq(OItem, inbox \o script), avail <- Len(inbox), failArmed <- FALSE, dl <- (IF deadline THEN "passed" ELSE "none"),
-       broken <- FALSE, sv <- OSv
+       broken <- FALSE, sv <- OSv,
+       sh <- [got |-> (CASE sv.reason = "peerclose" -> "close" [] sv.reason = "streamerr" -> "streamerr" [] sv.reason = "herr" -> "stanza_herr" [] sv.reason = "eof" -> "eof" [] OTHER -> "none"), stale |-> "no"]
 
 OutputSpec == O!Spec
 (* Output.tla's invariants on the mapped variables (implied by OutputSpec; checked on   *)
